@@ -311,7 +311,11 @@ def slow_streams(rng, fs, tier, rads):
         k = rng.randrange(3)
         keep = [r for i, r in enumerate(rads) if i % 3 == k or r in (6, 12, 36, 3, 35)]
         rads = keep
-    out = [("comp-sl", sl_ops(rng, fs, tier, rads))]
+    ops = sl_ops(rng, fs, tier, rads)
+    cap = 40000 if tier == "quick" else 150000
+    if len(ops) > cap:
+        ops = rng.sample(ops, cap)
+    out = [("comp-sl", ops)]
     odd_letters = [r for r in rads if r % 2 == 1 and r > 10]
     if odd_letters:
         low = [op for op in sl_ops(rng, fs, "quick", odd_letters[:: max(1, len(odd_letters) // 4)], lowercase=True)
